@@ -20,6 +20,10 @@ package c15
 //     the concurrent control: it also exceeds 20 x the median delivery time measured on the other stream in the
 //     same stall phase.  Without corroboration the suspicion is only counted (evidence counter).
 //
+//   - single sends: any one message published while somebody is stalled (generated items from the first stall on, stall
+//     phase) that takes longer than max(20 x the slowest baseline message, 1 s) AND during which the fan-out was
+//     seen parked is S1/publisher-delayed as well: a one-off block (one wait per full queue) does not move a median.
+//
 // The rule is evaluated after every stall-phase message once minSamples are in, so that a fan-out which costs
 // N x write-timeout per message is reported after a few messages instead of after the whole phase.
 
@@ -163,4 +167,32 @@ func (l *latency) judge(r *runner, final bool) *pbt.Violation {
 		}
 	}
 	return nil
+}
+
+// single judges one send that took d (the fan-out was seen parked during it iff r.sendParked != "").
+func (l *latency) single(r *runner, second bool, d time.Duration) *pbt.Violation {
+	if !r.inStal || r.sendParked == "" {
+		return nil
+	}
+	base, sig := l.base.pub, "S1/publisher-delayed"
+	if second {
+		base, sig = l.base.pub2, "S5/other-stream-publisher-delayed"
+	}
+	if len(base) < minSamples {
+		return nil
+	}
+	var worst time.Duration
+	for _, b := range base {
+		if b > worst {
+			worst = b
+		}
+	}
+	thr := delayFactor * worst
+	if thr < time.Second {
+		thr = time.Second
+	}
+	if d <= thr {
+		return nil
+	}
+	return pbt.V(sig, "lal needed %v for one published message (number %d) while consumers were stalled, against at most %v for the baseline frames before anybody stalled (threshold %v), and the fan-out was parked meanwhile:\n%s", d, len(r.P)-1, worst, thr, r.sendParked)
 }
